@@ -3,6 +3,8 @@ package main
 import (
 	"fmt"
 	"go/token"
+	"go/types"
+	"sort"
 	"strings"
 
 	"golang.org/x/tools/go/ssa"
@@ -127,11 +129,41 @@ func computeClosureFuncs(cx *Ctx, hm interface{}, compute *ssa.Function) map[*ss
 // reachesInstr: some instruction satisfying pred is reachable from fn through static calls inside the module
 // (closures created in a visited function are assumed to run).
 func reachesInstr(fn *ssa.Function, pred func(ssa.Instruction) bool, seen map[*ssa.Function]bool, skip func(*ssa.Function) bool) (bool, string) {
+	return reachesInstrEnv(fn, pred, seen, map[string]bool{}, skip, nil)
+}
+
+// funEnv binds the function-typed parameters of the function being explored to the functions handed in at the call
+// site the exploration came through (context-sensitive: a table computation's callback is the closure of that call).
+type funEnv map[*ssa.Parameter][]*ssa.Function
+
+func (e funEnv) key() string {
+	var ks []string
+	for p, fs := range e {
+		for _, f := range fs {
+			ks = append(ks, p.Name()+"="+f.String())
+		}
+	}
+	sort.Strings(ks)
+	return strings.Join(ks, ";")
+}
+
+func reachesInstrEnv(fn *ssa.Function, pred func(ssa.Instruction) bool, seen map[*ssa.Function]bool, seenEnv map[string]bool, skip func(*ssa.Function) bool, env funEnv) (bool, string) {
 	fn = origin(fn)
-	if fn == nil || seen[fn] || len(fn.Blocks) == 0 {
+	if fn == nil || len(fn.Blocks) == 0 {
 		return false, ""
 	}
-	seen[fn] = true
+	if len(env) == 0 {
+		if seen[fn] {
+			return false, ""
+		}
+		seen[fn] = true
+	} else {
+		k := fn.String() + "|" + env.key()
+		if seenEnv[k] {
+			return false, ""
+		}
+		seenEnv[k] = true
+	}
 	found, where := false, ""
 	withClosures(fn, func(f *ssa.Function) {
 		if found || (skip != nil && skip(f)) {
@@ -149,15 +181,31 @@ func reachesInstr(fn *ssa.Function, pred func(ssa.Instruction) bool, seen map[*s
 				return
 			}
 			if c := calleeOf(in); c != nil && c.Pkg != nil && strings.HasPrefix(c.Pkg.Pkg.Path(), modPath) {
-				if ok, w := reachesInstr(c, pred, seen, skip); ok {
+				// bind the callee's function-typed parameters to what this site hands in
+				var env2 funEnv
+				oc := origin(c)
+				cc := callCommon(in)
+				for i, q := range oc.Params {
+					if _, isSig := q.Type().Underlying().(*types.Signature); !isSig || i >= len(cc.Args) {
+						continue
+					}
+					if fs := funcValuesOf(cc.Args[i], 0, map[ssa.Value]bool{}, env); len(fs) > 0 {
+						if env2 == nil {
+							env2 = funEnv{}
+						}
+						env2[q] = fs
+					}
+				}
+				if ok, w := reachesInstrEnv(c, pred, seen, seenEnv, skip, env2); ok {
 					found, where = true, funcName(f)+" -> "+w
 				}
 			}
-			// a function-typed parameter (or a variable captured from one) that is called here: whatever the callers hand in
+			// a function-typed parameter (or a variable captured from one) that is called here: what the call site this
+			// exploration came through handed in
 			if cc := callCommon(in); cc != nil && !cc.IsInvoke() && cc.StaticCallee() == nil {
 				if _, isB := cc.Value.(*ssa.Builtin); !isB {
-					for _, tgt := range funcValuesOf(cc.Value, 0, map[ssa.Value]bool{}) {
-						if ok, w := reachesInstr(tgt, pred, seen, skip); ok {
+					for _, tgt := range funcValuesOf(cc.Value, 0, map[ssa.Value]bool{}, env) {
+						if ok, w := reachesInstrEnv(tgt, pred, seen, seenEnv, skip, nil); ok {
 							found, where = true, funcName(f)+" -> (function argument) "+w
 						}
 					}
@@ -166,7 +214,7 @@ func reachesInstr(fn *ssa.Function, pred func(ssa.Instruction) bool, seen map[*s
 			// bound methods handed over (c.evictNode)
 			if mc, ok := in.(*ssa.MakeClosure); ok {
 				if bm := boundMethod(mc); bm != nil {
-					if ok, w := reachesInstr(bm, pred, seen, skip); ok {
+					if ok, w := reachesInstrEnv(bm, pred, seen, seenEnv, skip, nil); ok {
 						found, where = true, funcName(f)+" -> "+w
 					}
 				}
@@ -222,12 +270,12 @@ func ruleC02LockOrder(cx *Ctx) {
 			}
 			switch {
 			case sameField(recvField(in), hmf):
-				bad, where := reachesInstr(cl, isBlocking, map[*ssa.Function]bool{}, func(f *ssa.Function) bool { return execClosures[f] })
+				bad, where := reachesInstrEnv(cl, isBlocking, map[*ssa.Function]bool{}, map[string]bool{}, func(f *ssa.Function) bool { return execClosures[f] }, rootEnv(cx.P, outermost(fn)))
 				cx.R.Check(!bad, rule, funcName(fn), "table computation is non-blocking", cx.P.where(in), "no eviction-lock acquisition, load wait or loader dispatch is reachable from inside the bucket-locked computation "+where)
 			case sameField(recvField(in), callsF):
-				bad, where := reachesInstr(cl, func(x ssa.Instruction) bool {
+				bad, where := reachesInstrEnv(cl, func(x ssa.Instruction) bool {
 					return isCallTo(x, compute) && sameField(recvField(x), hmf) || isBlocking(x)
-				}, map[*ssa.Function]bool{}, nil)
+				}, map[*ssa.Function]bool{}, map[string]bool{}, nil, rootEnv(cx.P, outermost(fn)))
 				cx.R.Check(!bad, rule, funcName(fn), "in-flight computation is a leaf", cx.P.where(in), "computations on the in-flight table neither touch the main table nor block "+where)
 			}
 		})
@@ -322,7 +370,7 @@ var lockOrderProg *Program
 
 // funcValuesOf: the module functions a function-typed value may denote, resolved through closures, bound methods, local
 // cells, captured variables and - for a parameter - the arguments at every call site of the enclosing function.
-func funcValuesOf(v ssa.Value, depth int, seen map[ssa.Value]bool) []*ssa.Function {
+func funcValuesOf(v ssa.Value, depth int, seen map[ssa.Value]bool, env funEnv) []*ssa.Function {
 	if v == nil || seen[v] || depth > 6 {
 		return nil
 	}
@@ -345,10 +393,10 @@ func funcValuesOf(v ssa.Value, depth int, seen map[ssa.Value]bool) []*ssa.Functi
 			add(closureOf(x))
 		}
 	case *ssa.ChangeType:
-		add(funcValuesOf(x.X, depth, seen)...)
+		add(funcValuesOf(x.X, depth, seen, env)...)
 	case *ssa.Phi:
 		for _, e := range x.Edges {
-			add(funcValuesOf(e, depth, seen)...)
+			add(funcValuesOf(e, depth, seen, env)...)
 		}
 	case *ssa.UnOp:
 		if x.Op == token.MUL {
@@ -356,11 +404,11 @@ func funcValuesOf(v ssa.Value, depth int, seen map[ssa.Value]bool) []*ssa.Functi
 			case *ssa.Alloc:
 				for _, u := range *a.Referrers() {
 					if st, ok := u.(*ssa.Store); ok && st.Addr == ssa.Value(a) {
-						add(funcValuesOf(st.Val, depth, seen)...)
+						add(funcValuesOf(st.Val, depth, seen, env)...)
 					}
 				}
 			case *ssa.FreeVar:
-				add(funcValuesOf(a, depth, seen)...)
+				add(funcValuesOf(a, depth, seen, env)...)
 			}
 		}
 	case *ssa.FreeVar:
@@ -379,37 +427,47 @@ func funcValuesOf(v ssa.Value, depth int, seen map[ssa.Value]bool) []*ssa.Functi
 						if al, isA := b.(*ssa.Alloc); isA {
 							for _, u := range *al.Referrers() {
 								if st, ok := u.(*ssa.Store); ok && st.Addr == ssa.Value(al) {
-									add(funcValuesOf(st.Val, depth+1, seen)...)
+									add(funcValuesOf(st.Val, depth+1, seen, env)...)
 								}
 							}
 						} else {
-							add(funcValuesOf(b, depth+1, seen)...)
+							add(funcValuesOf(b, depth+1, seen, env)...)
 						}
 					}
 				})
 			})
 		}
 	case *ssa.Parameter:
-		g := x.Parent()
-		idx := -1
-		for i, q := range g.Params {
-			if q == x {
-				idx = i
-			}
+		add(env[x]...)
+	}
+	return out
+}
+
+
+// rootEnv: for an exploration that starts inside fn (not through a call of fn): the function-typed parameters of fn
+// bound to what any call site of fn in the module hands in.
+func rootEnv(P *Program, fn *ssa.Function) funEnv {
+	fn = origin(fn)
+	var env funEnv
+	for i, q := range fn.Params {
+		if _, isSig := q.Type().Underlying().(*types.Signature); !isSig {
+			continue
 		}
-		if lockOrderProg == nil || idx < 0 {
-			return nil
-		}
-		for _, f := range lockOrderProg.ModuleFuncs() {
+		for _, f := range P.ModuleFuncs() {
 			allInstrs(f, func(in ssa.Instruction) {
-				if c := calleeOf(in); c != nil && c == origin(g) {
+				if c := calleeOf(in); c != nil && c == fn {
 					cc := callCommon(in)
-					if idx < len(cc.Args) {
-						add(funcValuesOf(cc.Args[idx], depth+1, seen)...)
+					if i < len(cc.Args) {
+						if fs := funcValuesOf(cc.Args[i], 0, map[ssa.Value]bool{}, nil); len(fs) > 0 {
+							if env == nil {
+								env = funEnv{}
+							}
+							env[q] = append(env[q], fs...)
+						}
 					}
 				}
 			})
 		}
 	}
-	return out
+	return env
 }
